@@ -13,6 +13,9 @@ from .storage import Table, UndoLog
 from .values import coerce, not_null_error, stored_key, truth
 
 
+_GATED = frozenset(('Select', 'Insert', 'Update', 'Delete', 'SetStmt', 'StartTx', 'Commit', 'Rollback', 'If', 'While', 'Declare', 'Open'))
+
+
 def _run_body(stmts, env):
     for s in stmts:
         r = s(env)
@@ -29,7 +32,26 @@ class FullCompiler(Compiler):
         m = getattr(self, 's_' + type(node).__name__, None)
         if m is None:
             raise Unsupported(f'statement {type(node).__name__}')
-        return m(node, rscope)
+        fn = m(node, rscope)
+        # Statement gate of the overlapping-requests layer (harness/batchdb/race.py): the statements of a PROCEDURE body are run
+        # one by one, so a request can be suspended / checked against the other request's locks between them.  `engine.stmt_hook` is
+        # None except while a history op "race" runs (one attribute test per procedure statement otherwise).  Trigger and function
+        # bodies are part of the statement that fires / calls them and are not gated.
+        if rscope is not None and rscope.routine.kind == 'PROCEDURE':
+            name = type(node).__name__
+            if name == 'DeclareCursor':
+                rscope.routine.cursor_asts[node.name.lower()] = node.select
+            if name in _GATED:
+                gate_node = rscope.routine.cursor_asts.get(node.cursor.lower(), node) if name == 'Open' else node
+                eng = self.engine
+
+                def gated(env, fn=fn, gate_node=gate_node):
+                    h = eng.stmt_hook
+                    if h is None:
+                        return fn(env)
+                    return h(gate_node, env, fn)
+                return gated
+        return fn
 
     # ---- SELECT ------------------------------------------------------------------------------------------------------
     def s_Select(self, node, rscope):
@@ -926,6 +948,7 @@ class Engine:
         self.now_msec = 0
         self.n_statements = 0
         self.fk_checks = True
+        self.stmt_hook = None     # see FullCompiler.statement
 
     # ---- housekeeping ------------------------------------------------------------------------------------------------
     def reset(self, seed=0):
